@@ -4,6 +4,7 @@ import Driver.C14
 import Driver.C16
 import Driver.C07
 import Driver.C20
+import Driver.C04
 open AITB
 
 def handleLine (line : String) : String :=
@@ -16,6 +17,7 @@ def handleLine (line : String) : String :=
   | "C16" :: rest => DrvC16.handle rest
   | "C07" :: rest => DrvC07.handle rest
   | "C20" :: rest => DrvC20.handle rest
+  | "C04" :: rest => DrvC04.handle rest
   | _ => "bad-op"
 
 partial def loop (h : IO.FS.Stream) (out : IO.FS.Stream) : IO Unit := do
